@@ -24,13 +24,27 @@ resumed without one (documented: it restarts from scratch).
 
 Known defect of the unchanged tree kept apart under its own clause (C_CLONE_F8, finding F8): PBT can stop a trial which is
 the source of a still pending clone decision (the source reaches ``max_t``, or is itself exploited away, later in the same
-batch of results), so the next ``suggest`` clones from a stopped trial whose check-point was removed.
+batch of results), so the next ``suggest`` clones from a stopped trial whose check-point was removed.  A clone whose source
+was already stopped / without check-point when the decision was taken is NOT routed there (C_CLONE_DEC, C_CLONE).
+
+Not part of C20 but met on the way and kept under its own clause instead of being dropped (C_SPEC_CRASH): the score-based
+``HyperbandRemoveCheckpointsCallback`` raises ValueError in ``on_loop_end`` and thereby ends the tuning loop (a) when more
+check-points are counted than ``max_num_checkpoints`` but no paused trial holds one (a FAILED trial stays counted as running:
+the call-back has no failure hook) and (b) when every candidate is promotable right away
+(``compute_probabilities_of_getting_resumed`` takes ``np.max`` of an empty array).  Configurations which run into (a) / (b)
+almost always (more workers than ``max_num_checkpoints``, PASHA, RUSH) use the base-line call-backs instead, see
+``_safe_removal``.
+
+Scenario design (no checks): workers of synchronous Hyperband crash only while their rung keeps enough valid results
+(otherwise a FAILED trial is promoted and the generic back end refuses to resume it, cf. F18); rungs with too few valid
+results come from trials which REPORT NaN.  DEHB runs without crashing workers and with the maximum number of brackets
+(F17 - F20), PASHA with one bracket (F14) and without tied metric values (its decisions then depend on PYTHONHASHSEED).
 """
 import contextlib
 import io
+import itertools
 import json
 import logging
-import math
 import os
 import shutil
 import tempfile
@@ -54,13 +68,15 @@ C_CLONE_DEC = "pbt/clone-decision-picks-a-source-that-is-not-stopped-and-whose-c
 C_CLONE_F8 = "pbt/source-of-a-pending-clone-decision-is-not-stopped-before-the-clone-starts"
 C_COPY = "warm-start/check-point-is-copied-before-the-new-trial-is-scheduled-and-only-when-requested"
 C_TERM = "scenario/tuning-loop-ends-without-exception"
+C_SPEC_CRASH = "speculative/score-based-removal-call-back-does-not-abort-the-tuning-loop"
 
-CLAUSES = [C_OFF, C_OFF_END, C_OFF_WARM, C_RUNNING, C_STOPDEC, C_PAUSED, C_INV, C_RESUME, C_RESUME_SPEC, C_CLONE, C_CLONE_DEC, C_CLONE_F8, C_COPY, C_TERM]
+CLAUSES = [C_OFF, C_OFF_END, C_OFF_WARM, C_RUNNING, C_STOPDEC, C_PAUSED, C_INV, C_RESUME, C_RESUME_SPEC, C_CLONE, C_CLONE_DEC, C_CLONE_F8, C_COPY, C_TERM, C_SPEC_CRASH]
 
 MAX_VIOLATIONS_PER_CLAUSE = 5
 METRIC, RESOURCE, COST, MAX_RES = "loss", "epoch", "cost", "epochs"
 ORDERS = ("epoch-major", "epoch-major-reversed", "trial-major", "trial-major-reversed", "random")
 TABLE = 64
+SAMPLE_FAMILIES = ("sync-hyperband", "hyperband", "pbt", "dehb")
 
 _ENV = None
 
@@ -87,7 +103,7 @@ class Ctx:
         self.scenarios.add(json.dumps(spec, sort_keys=True, default=str))
         fam = spec["family"]
         self.families[fam] = self.families.get(fam, 0) + 1
-        if len(self.samples) < 4 and self.families[fam] == 2 and fam not in [s["family"] for s in self.samples]:
+        if fam in SAMPLE_FAMILIES and self.families[fam] == 2 and fam not in [s["family"] for s in self.samples]:
             self.samples.append(json.loads(json.dumps(spec, default=str)))
 
     def check(self, clause, ok, **details):
@@ -147,6 +163,19 @@ class SyncRungModel:
     def failed(self, trial_id):
         if self.pending_level(trial_id) is not None:
             self.rungs[self.where[trial_id]]["values"][trial_id] = float("nan")
+
+    def may_fail(self, trial_id):
+        """scenario design, not a check: a worker may crash only while its rung keeps enough valid results to fill the next
+        one (otherwise synchronous Hyperband promotes a FAILED trial, which the generic back end refuses to resume -- outside
+        C20, cf. finding F18); rungs with too few valid results are produced with trials that REPORT NaN instead"""
+        key = self.where.get(trial_id)
+        if key is None:
+            return False
+        rung = self.rungs[key]
+        if rung["next_len"] is not None and rung.get("crashes", 0) + 1 > rung["size"] - rung["next_len"]:
+            return False
+        rung["crashes"] = rung.get("crashes", 0) + 1
+        return True
 
     def _key(self, v):
         return float("inf") if v != v else self.sign * v
@@ -323,12 +352,13 @@ class Mon:
         details = dict(trial=tid, state=t["state"], deleted=t["deleted"], events=self.tail(), **self.where())
         if self.speculative:
             d = t["deleted"]
-            ok = bool(t["ckpt"]) or (d is not None and d["by"] == "callback" and d["state"] == "paused")
+            ok = bool(t["ckpt"]) or not t["trained"] or (d is not None and d["by"] == "callback" and d["state"] == "paused")
             if not t["ckpt"] and ok:
                 self.ctx.stats["resumes-without-check-point-after-speculative-removal"] += 1
             self.ctx.check(C_RESUME_SPEC, ok, **details)
         else:
-            self.ctx.check(C_RESUME, bool(t["ckpt"]), **details)
+            # a trial that never wrote a check-point (it failed in its first epoch) has none that could have been deleted
+            self.ctx.check(C_RESUME, bool(t["ckpt"]) or not t["trained"], **details)
 
     def on_delete(self, tid):
         t = self.t(tid)
@@ -496,6 +526,10 @@ def _env():
             limit = self.spec["max_epochs"]
             if self.spec.get("max_resource_attr") and config.get(MAX_RES) is not None:
                 limit = min(limit, int(config[MAX_RES]))
+            if is_new:
+                # a job warm-started from a check-point which already is at the script's last epoch trains one more epoch
+                # (otherwise the new trial ends without any report, which the Tuner rejects)
+                limit = max(limit, sim["epoch"] + 1)
             sim["limit"] = limit
             self.mon.on_schedule(trial_id, sim["epoch"], is_new)
 
@@ -526,14 +560,14 @@ def _env():
             if mode == "config":
                 return float(config.get("x", 0.5)) + 1.0 / epoch
             if mode == "ties":
-                return float(round(self.table[row][epoch] * 2.0) / 2.0)
+                return float(round(self.table[row][epoch % self.table.shape[1]] * 2.0) / 2.0)
             if mode == "constant":
                 return 0.5
             if mode == "improving":
                 return float(self.table[row][0] + 1.0 / epoch)
             if mode == "worsening":
                 return float(self.table[row][0] + 0.1 * epoch * (1 + row % 3))
-            return float(self.table[row][epoch])
+            return float(self.table[row][epoch % self.table.shape[1]])
 
         def _speed(self, trial_id):
             speed = self.spec["speed"]
@@ -557,7 +591,7 @@ def _env():
                         sim["status"] = Status.completed
                         self.mon.on_ended(trial_id, "completed")
                         break
-                    if self.fail_draw[row] < self.spec["fail_rate"] and sim["runs"] == 1 and sim["epoch"] + 1 == int(self.fail_epoch[row]):
+                    if self.fail_draw[row] < self.spec["fail_rate"] and sim["runs"] == 1 and sim["epoch"] + 1 == int(self.fail_epoch[row]) and (self.mon.sync is None or (self.spec["nan_rate"] == 0 and self.mon.sync.may_fail(trial_id))):
                         sim["running"] = False
                         sim["status"] = Status.failed
                         self.mon.on_ended(trial_id, "failed")
@@ -583,7 +617,12 @@ def _env():
             else:
                 # random interleaving of the trials, reports of one trial stay in order
                 slots = [p[1] for p in produced]
-                self.rs.shuffle(slots)
+                if isinstance(order, str) and order.startswith("interleaving-"):
+                    # the same interleaving pattern in every poll (pattern number j); all patterns of a small batch are
+                    # reached by running j = 0 .. 11
+                    np.random.RandomState(int(order.split("-")[1])).shuffle(slots)
+                else:
+                    self.rs.shuffle(slots)
                 per_trial = {}
                 for p in produced:
                     per_trial.setdefault(p[1], []).append(p)
@@ -650,13 +689,14 @@ def _env():
             self.paused = []
             self.sources = []  # trials which reported at least once and were not stopped by this scheduler
             self.stopped = set()
+            self.last_epoch = {}
 
         def _suggest(self, trial_id):
             u = self.rs.rand()
             if self.paused and u < self.spec["p_resume"]:
                 tid = self.paused.pop(int(self.rs.randint(len(self.paused))))
                 return TrialSuggestion.resume_suggestion(trial_id=tid)
-            sources = [t for t in self.sources if t not in self.stopped]
+            sources = [t for t in self.sources if t not in self.stopped and self.last_epoch.get(t, 0) < self.spec["max_epochs"]]
             if sources and u > 1.0 - self.spec["p_warm"]:
                 src = sources[int(self.rs.randint(len(sources)))]
                 return TrialSuggestion.start_suggestion({"x": float(self.rs.rand())}, checkpoint_trial_id=src)
@@ -666,6 +706,7 @@ def _env():
             tid = trial.trial_id
             if tid not in self.sources:
                 self.sources.append(tid)
+            self.last_epoch[tid] = int(result[RESOURCE])
             u = self.rs.rand()
             if u < self.spec["p_pause"]:
                 self.paused.append(tid)
@@ -856,9 +897,16 @@ def run_scenario(E, ctx, spec):
                 tuner.callbacks.append(E.LoopEndCallback(mon))
                 tuner.run()
             except Exception as exc:
-                err = "%s: %s | %s" % (type(exc).__name__, exc, traceback.format_exc()[-900:])
+                err = "%s: %s | %s" % (type(exc).__name__, exc, traceback.format_exc()[-1500:])
         mon.phase = "after"
-        ctx.check(C_TERM, err is None, exception=err, events=mon.tail(), **mon.where())
+        rem = spec.get("sched", {}).get("early_checkpoint_removal_kwargs") if isinstance(spec.get("sched"), dict) else None
+        score_based = mon.speculative and rem is not None and "baseline" not in rem
+        in_score_code = err is not None and "hyperband_remove_checkpoints_callback.py" in err and "_trials_to_be_removed" in err
+        if score_based:
+            # not part of C20, but a crash there ends the scenario early: kept under its own name, never silently dropped
+            ctx.check(C_SPEC_CRASH, not in_score_code, exception=err, events=mon.tail(), **mon.where())
+        if not (score_based and in_score_code):
+            ctx.check(C_TERM, err is None, exception=err, events=mon.tail(), **mon.where())
         if not mon.delete_on and err is None:
             ctx.check(C_OFF_END, not any(t["deleted"] is not None for t in mon.trials.values()), deleted=[tid for tid, t in mon.trials.items() if t["deleted"] is not None][:10], events=mon.tail())
             # what Tuner.best_config advertises: start_trial(config, checkpoint_trial_id=...) after tuning
@@ -904,6 +952,15 @@ def _base(family, i, seed, **kw):
     return spec
 
 
+def _no_ties_for_pasha(specs):
+    """scenario design: PASHA's epsilon estimate iterates over a set of trial-id strings, so with tied metric values its
+    decisions depend on PYTHONHASHSEED; tied values are kept away from PASHA to keep the monitor deterministic"""
+    for spec in specs:
+        if spec["family"] == "hyperband" and spec["sched"].get("type") == "pasha" and spec["loss"] in ("ties", "constant"):
+            spec["loss"] = "random"
+    return specs
+
+
 def _rot(options, i, stride=1):
     return options[(i // stride) % len(options)]
 
@@ -916,7 +973,7 @@ def sync_catalogue(seed, thorough):
         size0 = rungs[0][0][0]
         for n_workers in (1, 2, 4):
             for delete in (True, False):
-                for variant in range(4 if thorough else 2):
+                for variant in range(8 if thorough else 3):
                     i += 1
                     k = i + seed
                     nan_rate = (0.0, 0.3, 0.7, 0.0)[k % 4]
@@ -940,6 +997,14 @@ def sync_catalogue(seed, thorough):
                     _base("sync-hyperband", k, seed, sched={"bracket_rungs": rungs}, n_workers=n_workers, delete=True, max_t=top, max_epochs=top + 1, nan_rate=nan_rate, fail_rate=fail_rate,
                           max_polls=30 + 3 * top, max_trials=12 * rungs[0][0][0], note="too-few-valid-results")
                 )
+    # every interleaving pattern of the results of one poll (workers report twice per poll, no max_resource_attr: the report
+    # at the rung level is followed by one more of the same trial in the same batch)
+    for rungs, n_workers, j in itertools.product(SYNC_RUNGS[:4], (2, 4), range(12 if thorough else 4)):
+        i += 1
+        k = i + seed
+        top = max(l for b in rungs for _, l in b)
+        specs.append(_base("sync-hyperband", k, seed, sched={"bracket_rungs": rungs}, n_workers=n_workers, delete=True, max_t=top, max_epochs=top + 2, speed=2, order="interleaving-%d" % ((j + seed) % 12),
+                           nan_rate=(0.0, 0.5)[k % 2], max_polls=40, max_trials=12 * rungs[0][0][0], note="interleavings"))
     geo = [dict(grace_period=1, reduction_factor=3), dict(grace_period=1, reduction_factor=2, brackets=2), dict(grace_period=2, reduction_factor=2, brackets=1), dict(grace_period=1, reduction_factor=3, brackets=3)]
     for gi, g in enumerate(geo):
         for n_workers in (1, 2, 4):
@@ -962,17 +1027,23 @@ def dehb_catalogue(seed, thorough):
         for spr in (True, False):
             for n_workers in (1, 2, 4):
                 for delete in (True, False):
-                    for variant in range(2 if thorough else 1):
+                    for variant in range(5 if thorough else 2):
                         i += 1
                         k = i + seed
                         mra = bool((k // 2) % 2)
                         specs.append(
-                            _base("dehb", k, seed, sched={"rungs_first_bracket": rungs, "support_pause_resume": spr, "num_brackets_per_iteration": (None, 1, 2)[k % 3] if len(rungs) > 2 else None,
+                            _base("dehb", k, seed, sched={"rungs_first_bracket": rungs, "support_pause_resume": spr, "num_brackets_per_iteration": None,
                                                          "searcher": ("random_encoded", "random")[(k // 3) % 2]},
                                   n_workers=n_workers, delete=delete, max_t=top, max_epochs=top if mra else top + 1 + k % 2, max_resource_attr=mra, nan_rate=(0.0, 0.0, 0.3)[k % 3],
                                   max_polls=30 + 4 * top, max_trials=8 * rungs[0][0], mode=("min", "max")[(k // 5) % 2], speed=_rot(SPEEDS, k) if not mra else 1)
                         )
-    for gi, g in enumerate([dict(grace_period=1, reduction_factor=3), dict(grace_period=1, reduction_factor=2, brackets=2)]):
+    for rungs, spr, n_workers, j in itertools.product(DEHB_RUNGS[:2], (True, False), (2, 4), range(12 if thorough else 3)):
+        i += 1
+        k = i + seed
+        top = rungs[-1][1]
+        specs.append(_base("dehb", k, seed, sched={"rungs_first_bracket": rungs, "support_pause_resume": spr, "num_brackets_per_iteration": None, "searcher": "random_encoded"}, n_workers=n_workers, delete=True,
+                           max_t=top, max_epochs=top + 2, speed=2, order="interleaving-%d" % ((j + seed) % 12), max_polls=40, max_trials=8 * rungs[0][0], note="interleavings"))
+    for gi, g in enumerate([dict(grace_period=1, reduction_factor=3), dict(grace_period=1, reduction_factor=2)]):
         for spr in (True, False):
             for n_workers in (1, 2, 4):
                 i += 1
@@ -980,6 +1051,21 @@ def dehb_catalogue(seed, thorough):
                 max_t = (9, 8)[gi]
                 specs.append(_base("dehb-geometric", k, seed, sched=dict(g, support_pause_resume=spr), n_workers=n_workers, delete=bool(k % 3), max_t=max_t, max_epochs=max_t + 1, max_polls=60, max_trials=50))
     return specs
+
+
+def _safe_removal(rem, typ, n_workers):
+    """scenario design: the score-based speculative call-back raises (outside C20) when no paused trial with a check-point
+    is left to choose from (ValueError in _prepare_score_inputs: more running trials than max_num_checkpoints) and when every
+    candidate is promotable right away (ValueError in compute_probabilities_of_getting_resumed, seen with PASHA's resource
+    cap and RUSH's thresholds); both are kept out of the catalogue, the base-line call-backs have no such restriction"""
+    rem = dict(rem)
+    if "baseline" not in rem:
+        if typ in ("pasha", "rush_promotion"):
+            rem["baseline"] = "by_level"
+            rem.pop("approx_steps", None)
+        else:
+            rem["max_num_checkpoints"] = max(rem["max_num_checkpoints"], n_workers)
+    return rem
 
 
 def hyperband_catalogue(seed, thorough):
@@ -998,54 +1084,58 @@ def hyperband_catalogue(seed, thorough):
         dict(max_num_checkpoints=1, max_wallclock_time=3600, baseline="random"),
         dict(max_num_checkpoints=4, max_wallclock_time=600, approx_steps=6),
     ]
-    for ti, (typ, extra) in enumerate(types):
-        for n_workers in (1, 2, 4):
-            for delete in (True, False):
-                for rem_i, rem in enumerate(removal):
-                    if not thorough and rem_i >= 3 and (ti + n_workers + rem_i + seed) % 2:
-                        continue
-                    i += 1
-                    k = i + seed
-                    shape = k % 4
-                    sched = dict(type=typ, **extra)
-                    if shape == 0:
-                        sched.update(grace_period=1, reduction_factor=3)
-                        max_t = 9
-                    elif shape == 1:
-                        sched.update(grace_period=1, reduction_factor=2)
-                        max_t = 8
-                    elif shape == 2:
-                        sched.update(rung_levels=[1, 2, 4, 6])
-                        max_t = 8
-                    else:
-                        sched.update(grace_period=1, reduction_factor=3, brackets=2, rung_system_per_bracket=bool((k // 4) % 2))
-                        max_t = 9
-                    if rem is not None:
-                        sched["early_checkpoint_removal_kwargs"] = rem
-                    mra = bool((k // 2) % 2)
-                    specs.append(
-                        _base("hyperband", k, seed, sched=sched, n_workers=n_workers, delete=delete, speculative=rem is not None, max_t=max_t, max_epochs=max_t if mra else max_t + k % 3, max_resource_attr=mra,
-                              fail_rate=(0.0, 0.0, 0.25)[k % 3], max_polls=45, max_trials=24, mode=("min", "max")[(k // 5) % 2], speed=_rot(SPEEDS, k) if not mra else _rot((1, 2), k))
-                    )
+    cells = itertools.product(types, (1, 2, 4), (True, False), removal, range(3 if thorough else 1))
+    for (typ, extra), n_workers, delete, rem, variant in cells:
+        i += 1
+        k = i + seed
+        shape = k % 4
+        if typ == "pasha" and shape == 3:
+            shape = 0  # PASHA with several brackets raises IndexError (finding F14)
+        sched = dict(type=typ, **extra)
+        if shape == 0:
+            sched.update(grace_period=1, reduction_factor=3)
+            max_t = 9
+        elif shape == 1:
+            sched.update(grace_period=1, reduction_factor=2)
+            max_t = 8
+        elif shape == 2:
+            sched.update(rung_levels=[1, 2, 4, 6])
+            max_t = 8
+        else:
+            sched.update(grace_period=1, reduction_factor=3, brackets=2, rung_system_per_bracket=bool((k // 4) % 2))
+            max_t = 9
+        if rem is not None:
+            sched["early_checkpoint_removal_kwargs"] = _safe_removal(rem, typ, n_workers)
+        mra = bool((k // 2) % 2)
+        specs.append(
+            _base("hyperband", k, seed, sched=sched, n_workers=n_workers, delete=delete, speculative=rem is not None, max_t=max_t, max_epochs=max_t if mra else max_t + k % 3, max_resource_attr=mra,
+                  fail_rate=(0.0, 0.0, 0.25)[k % 3], max_polls=45, max_trials=24, mode=("min", "max")[(k // 5) % 2], speed=_rot(SPEEDS, k) if not mra else _rot((1, 2), k))
+        )
+    # every interleaving pattern of the results of one poll (workers report twice per poll, no max_resource_attr: the report
+    # at the rung level is followed by one more of the same trial in the same batch)
+    for (typ, extra), n_workers, rem, j in itertools.product(types[:2], (2, 4), (None, removal[2]), range(12 if thorough else 4)):
+        i += 1
+        k = i + seed
+        sched = dict(type=typ, grace_period=1, reduction_factor=3, **extra)
+        if rem is not None:
+            sched["early_checkpoint_removal_kwargs"] = _safe_removal(rem, typ, n_workers)
+        specs.append(_base("hyperband", k, seed, sched=sched, n_workers=n_workers, delete=True, speculative=rem is not None, max_t=9, max_epochs=10, speed=2, order="interleaving-%d" % ((j + seed) % 12),
+                           max_polls=40, max_trials=24, note="interleavings"))
     return specs
 
 
 def pbt_catalogue(seed, thorough):
     specs = []
     i = 0
-    for pop in (2, 3, 4):
-        for n_workers in (1, 2, 4):
-            for delete in (True, False):
-                for interval, max_t in ((1, 4), (2, 6), (1, 8), (3, 7)):
-                    if not thorough and (pop + n_workers + interval + max_t + seed) % 2:
-                        continue
-                    i += 1
-                    k = i + seed
-                    specs.append(
-                        _base("pbt", k, seed, sched=dict(population_size=pop, perturbation_interval=interval, quantile_fraction=(0.25, 0.5, 0.34)[k % 3], resample_probability=0.25),
-                              n_workers=n_workers, delete=delete, max_t=max_t, max_epochs=max_t + (0, 1, 3)[k % 3], speed=1 if k % 2 else _rot(SPEEDS, k), nan_rate=(0.0, 0.0, 0.0, 0.2)[k % 4],
-                              fail_rate=(0.0, 0.2)[(k // 4) % 2], max_polls=40, max_trials=24, mode=("min", "max")[(k // 3) % 2])
-                    )
+    cells = itertools.product((2, 3, 4), (1, 2, 4), (True, False), ((1, 4), (2, 6), (1, 8), (3, 7)), range(3 if thorough else 1))
+    for pop, n_workers, delete, (interval, max_t), variant in cells:
+        i += 1
+        k = i + seed
+        specs.append(
+            _base("pbt", k, seed, sched=dict(population_size=pop, perturbation_interval=interval, quantile_fraction=(0.25, 0.5, 0.34)[k % 3], resample_probability=0.25),
+                  n_workers=n_workers, delete=delete, max_t=max_t, max_epochs=max_t + (0, 1, 3)[k % 3], speed=1 if k % 2 else _rot(SPEEDS, k), nan_rate=(0.0, 0.0, 0.0, 0.2)[k % 4],
+                  fail_rate=(0.0, 0.2)[(k // 4) % 2], max_polls=40, max_trials=24, mode=("min", "max")[(k // 3) % 2])
+        )
     # directed: two trials, both report twice per poll, the second one of the batch decides at epoch 1, the first one
     # reaches max_t = 2 right after it in the same batch (finding F8 on the unchanged tree for one of the two orders)
     for order in ("epoch-major", "epoch-major-reversed"):
@@ -1055,6 +1145,12 @@ def pbt_catalogue(seed, thorough):
                 _base("pbt", i + seed, seed, sched=dict(population_size=2, perturbation_interval=1, quantile_fraction=0.5, resample_probability=0.25), n_workers=2, delete=delete, max_t=2, max_epochs=4,
                       speed=2, order=order, loss="config", max_polls=6, max_trials=8, note="source-reaches-max_t-right-after-the-clone-decision")
             )
+    # every interleaving pattern of the results of one poll
+    for pop, n_workers, j in itertools.product((2, 4), (2, 4), range(12 if thorough else 4)):
+        i += 1
+        k = i + seed
+        specs.append(_base("pbt", k, seed, sched=dict(population_size=pop, perturbation_interval=1, quantile_fraction=0.5, resample_probability=0.25), n_workers=n_workers, delete=True, max_t=6, max_epochs=8,
+                           speed=2, order="interleaving-%d" % ((j + seed) % 12), max_polls=30, max_trials=24, note="interleavings"))
     return specs
 
 
@@ -1064,7 +1160,7 @@ def scripted_catalogue(seed, thorough):
     for n_workers in (1, 2, 4):
         for delete in (True, False):
             for p_pause, p_stop, p_resume, p_warm in ((0.3, 0.1, 0.6, 0.3), (0.5, 0.0, 0.9, 0.1), (0.1, 0.3, 0.5, 0.5), (0.25, 0.25, 0.3, 0.6)):
-                for variant in range(3 if thorough else 1):
+                for variant in range(8 if thorough else 3):
                     i += 1
                     k = i + seed
                     specs.append(_base("scripted", k, seed, n_workers=n_workers, delete=delete, p_pause=p_pause, p_stop=p_stop, p_resume=p_resume, p_warm=p_warm, max_epochs=4 + k % 4, max_t=9,
@@ -1096,6 +1192,7 @@ def random_specs(rs, n, seed):
                 rem = dict(max_num_checkpoints=int(rs.randint(1, 5)), max_wallclock_time=3600)
                 if rs.rand() < 0.5:
                     rem["baseline"] = ("by_level", "random")[int(rs.randint(2))]
+                rem = _safe_removal(rem, typ, common["n_workers"])
                 sched["early_checkpoint_removal_kwargs"] = rem
             mra = bool(rs.rand() < 0.4)
             max_t = int(rs.choice([8, 9]))
@@ -1138,9 +1235,10 @@ def monitor_checkpoints(tier="quick", seed=0):
             part = fn(seed, thorough)
             n[name] = len(part)
             catalogue.extend(part)
-        rnd = random_specs(rs, 240 if thorough else 60, seed)
+        rnd = random_specs(rs, 1500 if thorough else 240, seed)
         n["random"] = len(rnd)
         catalogue.extend(rnd)
+        _no_ties_for_pasha(catalogue)
         for spec in catalogue:
             run_scenario(E, ctx, spec)
     finally:
@@ -1152,24 +1250,29 @@ def monitor_checkpoints(tier="quick", seed=0):
             os.environ["SYNETUNE_FOLDER"] = old_env
         shutil.rmtree(tmp_root, ignore_errors=True)
     empty = [c for c in CLAUSES if ctx.counts[c] == 0]
-    if empty:
-        raise RuntimeError("clauses never exercised (an empty check must not look green): %s" % empty)
-    for key in ("resumes", "warm-starts", "deletions-during-tuning", "pauses", "stops"):
-        if ctx.stats[key] == 0:
-            raise RuntimeError("the catalogue never produced any of: %s" % key)
+    missing = [key for key in ("resumes", "warm-starts", "deletions-during-tuning", "pauses", "stops") if ctx.stats[key] == 0]
+    if (empty or missing) and not ctx.violations:
+        # with violations the run is not green anyway and they are more useful than this error
+        raise RuntimeError("clauses never exercised (an empty check must not look green): %s; events the catalogue never produced: %s" % (empty, missing))
     summary = (
-        "real Tuner.run over a scripted in-memory TrialBackend (workers train 1..3 epochs per poll, 5 orders of the results inside a poll, trials fail / report NaN with rate 0..1), "
-        "n_workers 1,2,4 (random: 1..4), delete_checkpoints on/off, max_resource_attr on/off, mode min/max; schedulers: SynchronousHyperband (6 rung systems, <= 3 brackets offsets, <= 9 slots, levels <= 9; geometric 4 settings), "
-        "DEHB (4 rung systems + 2 geometric, support_pause_resume on/off), HyperbandScheduler promotion/pasha/rush_promotion/cost_promotion x early_checkpoint_removal_kwargs none/score/by_level/random (max_num_checkpoints 1..4), "
-        "PBT (population 2..4, interval 1..3, max_t 2..8), scripted pause/stop/resume/warm-start scheduler; <= 70 polls and <= 90 trials per run; not covered: type='dyhpo', asynchronous_scheduling=False, "
-        "start_jobs_without_delay=False, LocalBackend files; scenarios: %s; events: %s; checks per clause: %s; violations per clause: %s"
-        % (json.dumps(n, sort_keys=True), json.dumps(ctx.stats, sort_keys=True), json.dumps(ctx.counts, sort_keys=True), json.dumps(ctx.total_violations, sort_keys=True))
+        "real Tuner.run over a scripted in-memory TrialBackend (workers train 1..3 epochs per poll; results inside a poll in 5 orders + 12 fixed interleaving patterns; trials crash / report NaN with rate 0..1), "
+        "n_workers 1,2,4 (random part: 1..4), delete_checkpoints on/off, max_resource_attr on/off, mode min/max; schedulers: SynchronousHyperbandScheduler (6 rung systems: <= 3 bracket offsets, <= 9 slots, <= 4 rungs, "
+        "levels <= 9; geometric: 4 settings, levels <= 27), DEHB (4 rung systems + 2 geometric, support_pause_resume on/off, searcher random_encoded/random), HyperbandScheduler promotion / pasha / rush_promotion / "
+        "cost_promotion (4 rung-level shapes, <= 2 brackets) x early_checkpoint_removal_kwargs none / score-based / by_level / random with max_num_checkpoints 1..4, PopulationBasedTraining (population 2..4, interval 1..3, "
+        "max_t 2..8, quantile 0.25/0.34/0.5), scripted pause/stop/resume/warm-start scheduler; <= 70 polls and <= 108 trials per run; after tuning with deletion off: warm start from 3 trials; not covered: type='dyhpo', "
+        "asynchronous_scheduling=False, start_jobs_without_delay=False (F9), wait_trial_completion_when_stopping, files of LocalBackend, crashing workers under DEHB (F17-F20); scenarios: %s; events: %s; "
+        "checks per clause: %s; violations per clause: %s%s"
+        % (json.dumps(n, sort_keys=True), json.dumps(ctx.stats, sort_keys=True), json.dumps(ctx.counts, sort_keys=True), json.dumps(ctx.total_violations, sort_keys=True),
+           ("; NEVER EXERCISED: %s %s" % (empty, missing)) if (empty or missing) else "")
     )
+    # C_SPEC_CRASH (the score-based removal call-back raising and ending the loop) is a defect of the library, but C20 speaks
+    # about check-points existing when needed, not about that call-back staying alive: it is evaluated and reported in the
+    # summary, not part of the verdict (demanding it would be demanding more than the property states)
     return {
         "evaluations": ctx.evaluations,
         "distinct": len(ctx.scenarios),
-        "clauses": list(CLAUSES),
-        "violations": ctx.violations,
+        "clauses": [c for c in CLAUSES if c != C_SPEC_CRASH],
+        "violations": [v for v in ctx.violations if v["clause"] != C_SPEC_CRASH],
         "samples": ctx.samples[:4],
-        "summary": summary,
+        "summary": summary + "; informational (outside the property, not part of the verdict): %s violated %d times" % (C_SPEC_CRASH, sum(1 for v in ctx.violations if v["clause"] == C_SPEC_CRASH)),
     }
